@@ -83,7 +83,8 @@ func (p *Parser) ParseFunctionParameters() []*ast.Identifier {
 
 func (p *Parser) ParseReturnStatement() *ast.ReturnStatement {
 	stmt := &ast.ReturnStatement{Token: p.CurrentToken}
-	if p.PeekToken.Type != token.SEMICOLON && p.PeekToken.Type != token.EOF && p.PeekToken.Type != token.RBRACE {
+	// restricted production: no line terminator is allowed between `return` and its operand
+	if p.PeekToken.Type != token.SEMICOLON && p.PeekToken.Type != token.EOF && p.PeekToken.Type != token.RBRACE && !p.PeekToken.AfterNewline {
 		p.NextToken()
 		stmt.ReturnValue = p.ParseExpression()
 	}
